@@ -25,8 +25,8 @@ META = {
     "assumptions": ["documents on which resolving the path argument is itself an error by C04 (`single` with several "
                     "matches, datum modifier undefined on a selected node) are executed, counted and not judged",
                     "the literal rule is judged by the implementation itself (relational oracle): leaf meanings are C01's business"],
-    "bounds": {"quick": {"documents": "~190", "positions": 19, "path arguments": 18},
-               "thorough": {"documents": "~190 + F-type two-level", "positions": 19, "path arguments": 18}},
+    "bounds": {"quick": {"documents": "~190", "positions": 21, "path arguments": 18},
+               "thorough": {"documents": "~190 + F-type two-level", "positions": 21, "path arguments": 18}},
 }
 
 L = T.leaf
@@ -50,6 +50,7 @@ def positions(pa):
         ("one:less_than", L("Value", "less_than", a)), ("one:keys_contain", L("Value", "keys_contain", a)),
         ("one:not_equal_to", L("Value", "not_equal_to", a)),
         ("kw:in_range.lower", L("Value", "in_range", lower=a, upper=5)), ("pos:in_range.upper", L("Value", "in_range", 0, a)),
+        ("kw:in_range.upper", L("Value", "in_range", lower=0, upper=a)), ("varkw:items_contain.second", L("Value", "items_contain", x=1, y=a)),
         ("kw:equal_to_approx", L("Value", "equal_to_approx", value=a)),
         ("varpos:keys_contain_any_of", L("Value", "keys_contain_any_of", a, "zz")),
         ("varpos:allowed_keys", L("Value", "allowed_keys", "x", a)),
@@ -79,6 +80,9 @@ def documents(tier):
         out.append({"a": [1, x], "b": x, "lst": [[1, x], x]})
     out += [{"a": 1}, {"b": 1}, {"lst": [1]}, [1, 2], {"a": ["b"], "b": "b"}, {"a": {"path": ["b"]}, "b": 1},
             {"a": 2, "b": 2, "lst": [2, 1, 1], "m": {"a": 1, "x": 2}}, {"a": 3, "b": [1, 2, 3], "lst": [1], "m": {"x": 1, "y": 2, "z": 3}}]
+    # mapping keys in non-sorted order / of mixed types (for map_keys path arguments)
+    out += [{"a": ["x", "a"], "m": {"x": 1, "a": 1}}, {"a": [1, "two"], "m": {1: 0, "two": 0}, "b": ["x", "a"]},
+            {"a": ["a", "x"], "m": {"x": 1, "a": 1}}]
     # intermediate matches that lack the remaining parts, before / after ones that have them
     for x in (1, 4, "a"):
         out.append({"a": x, "jobs": [{"name": "a"}, {"name": "b", "cores": 4}, {"cores": 1}, {"name": "c"}], "m": {"x": [x]}})
@@ -243,11 +247,17 @@ def check_escaped(res):
         res.states.add(hash(repr(spec)))
         case = {"escaped": True, "spec": spec}
         try:
-            c = ConditionLike.from_spec(fresh(spec))
+            shared_spec = fresh(spec)
+            c = ConditionLike.from_spec(shared_spec)
+            c_again = ConditionLike.from_spec(shared_spec)      # the same structure object parsed a second time
         except BaseException as e:
             res.violation("escaped:parse:%s" % type(e).__name__, "escaped spec %r was rejected: %r" % (spec, e), case, observed=repr(e))
             continue
         built = T.build_cond(term)
+        if not (c_again == built):
+            res.violation("escaped:second-parse", "escaped spec %r parsed a second time gives %r, not the literal %r"
+                          % (spec, c_again, built), case, observed=repr(c_again), expected=repr(built))
+            continue
         if not (c == built):
             res.violation("escaped:not-literal", "escaped spec %r parsed to %r, not the literal %r" % (spec, c, built), case,
                           observed=repr(c), expected=repr(built))
